@@ -113,3 +113,101 @@ func genInArray(w *World, res *CheckResult) {
 		res.Assumptions = append(res.Assumptions, "inArray: the element loops are cut with invariant true; only the call of Kind() on the left operand's static type is checked for safety; index / type-assertion / dereference sites inside the loops are not decided")
 	}
 }
+
+// genPipelineOrder: expr.Compile runs its passes in the order the properties
+// rely on — types first, then operator overloads, then user visitors, then the
+// optimizer, then code generation (syntactic, over the SSA control-flow graph:
+// dominance and reachability of the call sites).
+func genPipelineOrder(w *World, res *CheckResult) {
+	fn := w.Func("expr.Compile")
+	o := &Obligation{Name: "expr.Compile/pipeline:order", Kind: "post", Expect: "unsat", Backend: "syntactic", Func: "expr.Compile", Meta: map[string]string{}, Status: "undecided"}
+	res.Obls = append(res.Obls, o)
+	if fn == nil {
+		o.Status, o.Output = "missing", "expr.Compile not found"
+		return
+	}
+	sites := map[string][]*ssa.BasicBlock{}
+	pos := map[string][]int{}
+	for _, b := range fn.Blocks {
+		for i, in := range b.Instrs {
+			if c, ok := in.(ssa.CallInstruction); ok {
+				if f, ok := c.Common().Value.(*ssa.Function); ok {
+					n := shortName(f)
+					sites[n] = append(sites[n], b)
+					pos[n] = append(pos[n], i)
+				}
+			}
+		}
+	}
+	reach := func(from, to *ssa.BasicBlock) bool {
+		seen := map[*ssa.BasicBlock]bool{}
+		var dfs func(b *ssa.BasicBlock) bool
+		dfs = func(b *ssa.BasicBlock) bool {
+			if seen[b] {
+				return false
+			}
+			seen[b] = true
+			for _, s := range b.Succs {
+				if s == to || dfs(s) {
+					return true
+				}
+			}
+			return false
+		}
+		return dfs(from)
+	}
+	// before(a, b): every call of b is dominated by some call of a, and no call of a is reachable from a call of b
+	before := func(a, b string) string {
+		if len(sites[a]) == 0 || len(sites[b]) == 0 {
+			return a + " or " + b + " is not called by expr.Compile"
+		}
+		for bi, bb := range sites[b] {
+			dom := false
+			for ai, ab := range sites[a] {
+				if ab == bb && pos[a][ai] < pos[b][bi] || ab != bb && ab.Dominates(bb) {
+					dom = true
+				}
+			}
+			if !dom {
+				return "a call of " + b + " is not preceded by " + a + " on every path"
+			}
+			for ai, ab := range sites[a] {
+				if ab == bb && pos[a][ai] > pos[b][bi] || ab != bb && reach(bb, ab) {
+					if a == "checker.Check" {
+						continue // the tree is re-checked after the visitors ran
+					}
+					return "a call of " + a + " can follow a call of " + b
+				}
+			}
+		}
+		return ""
+	}
+	var bad []string
+	for _, pr := range [][2]string{{"checker.Check", "compiler.PatchOperators"}, {"compiler.PatchOperators", "ast.Walk"}, {"compiler.PatchOperators", "optimizer.Optimize"}, {"ast.Walk", "optimizer.Optimize"}, {"optimizer.Optimize", "compiler.Compile"}, {"compiler.PatchOperators", "compiler.Compile"}} {
+		a, b := pr[0], pr[1]
+		why := before(a, b)
+		if (b == "optimizer.Optimize" && a == "ast.Walk") || (a == "optimizer.Optimize") {
+			// optional passes (no visitors / Optimize(false)): only the relative order matters
+			why = ""
+			for bi, bb := range sites[b] {
+				for ai, ab := range sites[a] {
+					if ab == bb && pos[a][ai] > pos[b][bi] || ab != bb && reach(bb, ab) {
+						why = "a call of " + a + " can follow a call of " + b
+					}
+				}
+			}
+			if len(sites[a]) == 0 || len(sites[b]) == 0 {
+				why = a + " or " + b + " is not called by expr.Compile"
+			}
+		}
+		if why != "" {
+			bad = append(bad, a+" < "+b+": "+why)
+		}
+	}
+	if len(bad) == 0 {
+		o.Status = "discharged"
+		o.Output = "checker.Check < PatchOperators < user visitors (ast.Walk) < optimizer.Optimize < compiler.Compile on every path"
+	} else {
+		o.Output = strings.Join(bad, "; ")
+	}
+}
